@@ -482,3 +482,6 @@ func readLines(file string) ([]string, error) {
 	}
 	return out, nil
 }
+
+func mkRoot(c runCfg) (string, error) { return os.MkdirTemp(c.Out, "mod") }
+func rmRoot(root string)              { os.RemoveAll(root) }
